@@ -342,6 +342,10 @@ pub fn wellformed(m: &MachineSpec, obs: &mut Obs) -> Result<(), String> {
 
 impl Prop for C12 {
     type Case = C12Case;
+    fn admissible(c: &C12Case) -> bool {
+        c.base.states.len() <= 16 && c.mutations.len() <= 16
+    }
+
     const ID: &'static str = "C12";
     const RULE: &'static str = "case = a generated valid machine (1..=4 states, all distribution families) with 0..=3 adversarial mutations: fraction <- {NaN (several payloads), +-inf, -0.0, subnormal, 1+-ulp, negative, random bits}; probability <- adversarial f32; target <- out of range / pseudo-state neighbours / duplicate; appended transitions (duplicates, sums just over 1); any distribution (valid or not) in actions and counters; empty state list; empty transition list (via the bincode mirror only); plus framework fractions from the same pool. Paths: Machine::new, validate() on the field-built value, from_str(encode(mirror)), Framework::new. Non-trivial: >=1 mutation. Distinct = hash of the case.";
 
